@@ -16,7 +16,7 @@ CHECKS = {
              note="Weights dyadic, indexes mathematical integers; state sizes as listed in the evidence; the same-kind fast paths from arbitrary states are C04's/C05's harnesses.",
              ref="§6 C02"),
  "C06": dict(text="Sketches BUILT by the real code on every store kind (0-2 positive, 0-1 negative bins at a symbolic base index, unit or grid weights, zero weight) are encoded by the real encoder (mapping embedded, or omitted and supplied, onto an existing symbolic prefix) and decoded by the real decoder into every store kind: the solver proves prefix preserved, source content unchanged, mapping Equals, zero weight and both sides' content identical, and that decoding the same bytes into the now non-empty result doubles every weight (decode = merge).",
-             note="Byte level, real varint/varfloat code. Decoded integers are replaced by the encoded term only after the solver proves them equal under the path condition. Pairs involving the paginated store use ENUMERATED index bases (page arithmetic over a symbolic 64-bit base did not finish): those runs are interpreter-executed enumeration, not solver-decided, and are labelled so in the evidence. Symbolic weights are thorough-tier only.",
+             note="Byte level, real varint/varfloat code. Decoded integers are replaced by the encoded term only after the solver proves them equal under the path condition. Pairs involving the paginated store use ENUMERATED index bases (page arithmetic over a symbolic 64-bit base did not finish): those runs are interpreter-executed enumeration, not solver-decided, and are labelled so in the evidence. A variant with a symbolic small-integer weight is kept as an unregistered attempt (_X harnesses: did not finish within an hour).",
              ref="§6 C06"),
  "C07": dict(text="(a) Every encoding produced by the implementation for the C06 sources (both sketch variants, dense/sparse/paginated/collapsing stores, either bin layout the dense store picks) is parsed by a reference decoder written from the format documentation only into the same content, consuming every byte; (b) streams written by a reference ENCODER from the documented grammar (three layouts, strides -1/0/40, repeated blocks and indexes, three block orders) decode with the real decoder into sparse, dense and paginated stores to the documented content; (c) the plain decoder accepts exact-summary encodings and the exact decoder restores the statistics.",
              note="The reference codec (harness/ddsketch/zz_refcodec.go) is part of the trusted base. Bounds as C06 plus 3 bins per block. The plain-decoder defect found here was repaired (known_findings.json).",
@@ -31,7 +31,7 @@ CHECKS = {
              note="Same assume-guarantee split as C01. Bounds: n<=2 values (3 thorough). The negative-rank defect found here was repaired (known_findings.json).",
              ref="§6 C11"),
  "C12": dict(text="On sketches built by real adds of n<=2 arbitrary trackable values (contract mapping, real sparse stores): count = number of values, emptiness, zero count, reported extremes in the accuracy band of the true extremes in all five sign cases, quantiles monotone in q and inside the reported extremes for all q1<=q2, batch query equals single queries and fails iff one fails, ForEach yields distinct bins with positive weights summing to the count, covering every input, and stops when asked.",
-             note="GetSum's alpha-accuracy is NOT covered (needs a multiplicative band and float products). Bounds n<=2 (3 thorough).",
+             note="GetSum's alpha-accuracy is NOT covered (needs a multiplicative band and float products: the attempt, kept as _X harnesses, came back unknown). Bounds n<=2 (3 thorough).",
              ref="§6 C12"),
  "C13": dict(text="For ALL float64 bit patterns of value, weight (non-NaN) and quantile, on both sketch variants and the three real mapping kinds: the returned error is exactly the documented one (negative weight, too high, too low, NaN, else nil), quantile queries err iff q is not a number in [0,1] or the sketch is empty, refused calls leave every observable unchanged; constructors refuse accuracies outside (0,1) and bases <=1 and never return (nil,nil); mismatched mappings and non-positive reweight factors are refused without effect.",
              note="Four defects found here were repaired (known_findings.json). Acceptance of in-range accuracies is checked on a concrete grid (Pow/Log are uninterpreted on symbolic arguments).",
@@ -48,7 +48,7 @@ CHECKS = {
  "C20": dict(text="Dataset built by real Add/Merge of n<=3 (quick) arbitrary non-NaN float64 values: for every q (all bit patterns) Lower/UpperQuantile return exactly the order statistic of rank floor/ceil of fl(q*(n-1)) (oracle written without sorting), NaN for invalid q or empty data, exact Min/Max/Count; the same after additions or a merge following a query (stale sort flag); Sum exact on dyadic data.",
              note="sort.Float64s is modelled as an insertion sort forking on comparisons. The rank is read in float64 arithmetic. The NaN-quantile panic found here was repaired.",
              ref="§6 C20"),
- "C03": dict(text="PARTIAL. Decided on the real arithmetic of the linearly interpolated mapping, one binade at a time (all 2^52 significands; quick: alpha=0.01 in binades -1,0,1; thorough: more accuracies, far binades and a non-default offset): relative accuracy within alpha+1e-12, the value inside its bin up to 4 ulps, index in int32, the next float never maps to a smaller index (cvc5 decides each in minutes). For all three kinds: the manual floor of Index brackets the log-like quantity for every value of that quantity, and — by concrete evaluation of the real constructors on a grid of accuracies — the reported accuracy equals the configured one within 8 ulps of 1 and both ends of the indexable range map to int32 indexes within the accuracy.",
+ "C03": dict(text="PARTIAL. Decided on the real arithmetic of the linearly interpolated mapping, one binade at a time (all 2^52 significands; quick: alpha=0.01 in binades -1,0,1; thorough: more accuracies, far binades and a non-default offset): relative accuracy within alpha+1e-12, the value inside its bin up to a few ulps of the floored quantity (relative 2*eps*(|E|+2+|offset|/multiplier)+4*eps; see DESIGN 12.3(7)), index in int32, the next float never maps to a smaller index (cvc5 decides each in minutes). For all three kinds: the manual floor of Index brackets the log-like quantity for every value of that quantity, and — by concrete evaluation of the real constructors on a grid of accuracies — the reported accuracy equals the configured one within 8 ulps of 1 and both ends of the indexable range map to int32 indexes within the accuracy.",
              note="NOT decided: accuracy, containment and monotonicity of the logarithmic mapping (depends on math.Log/Exp, uninterpreted here) and of the cubic mapping (cubic polynomial and Cardano inverse: solver timeouts); binades and accuracies not listed. Monotonicity of the floor skeleton is thorough-tier (attempted, 10 min cap).",
              ref="§6 C03, §12.6", tech="bounded symbolic execution of the real Go SSA (own encoder) + SMT: cvc5 1.0 --fp-exp decides the float kernels (z3 as fallback); counterexamples replayed natively"),
  "C09": dict(text="PARTIAL (proto.Marshal/Unmarshal run on reflection and are outside). Decided on real code: (a) ToProto -> FromProtoWithStoreProvider for source/target store kinds incl. collapsing, the three mapping kinds and EVERY positive finite float64 weight: mapping Equals both ways, zero weight and every bin bit-for-bit, source untouched; (b) hand-built messages giving bins both sparsely and contiguously add up in MergeWithProto (generic and paginated); (c) the bytes written by the streaming EncodeProto (generated builders, protowire and bytes.Buffer executed from their real code) are parsed by a reference protobuf wire parser (packed and unpacked doubles) into exactly the fields of the in-memory message.",
@@ -61,13 +61,13 @@ CHECKS = {
              note="Symmetry of Equals for two fully symbolic mappings and the accuracy-separation for all accuracies are thorough-tier attempts (float products). The streaming protobuf form of a mapping is covered in C09(c).",
              ref="§6 C19"),
  "C04": dict(text="One inductive step of every store operation from an arbitrary state satisfying the representation invariant (dense: any window in a symbolic array with stale cells beyond len; sparse: M distinct symbolic indexes; buffered-paginated: enumerated page-table layouts with symbolic buffer, page base, cells) is proven by the solver to preserve the invariant and to change the abstract index->weight map exactly as the operation's specification says, at a skolem probe index; every observer (TotalCount, IsEmpty, Min/MaxIndex, KeyAtRank at symbolic rank incl. exact cumulative boundaries and negatives, ForEach incl. early stop, Bins) is proven to return the value the specification assigns to that map. By induction this covers operation histories of any length whose states fit the stated size bounds. In addition every 3-operation history from a NEW store (adds, observations, copies, clears, merges, reweights, decodes of the three bin layouts) is executed through the real constructors and compared with a ghost multiset, and after every copy and merge the two stores are proven to share no mutable memory (structural disjointness of the engine's heap graph), which is what catches added caches/flags and aliasing that the one-step states cannot contain.",
-             note="Weights are dyadic fixed point (multiples of 2^-4, <= 2^20 units) and indexes are mathematical integers with int32 range: exactness/no-wrap is enforced by bound tracking (|m| < 2^53). Trusted: the invariants are inductive only as far as the step obligations show; go/ssa; this engine; z3/cvc5. Bounds: dense window arrays of 0/1/4 symbolic cells plus an enumerated 66-cell layout, new index within 12 of the window; sparse M<=3 with all iteration orders; paginated layouts as listed in the evidence. Encode/Decode and protobuf steps are covered under C06/C09.",
+             note="Weights are dyadic fixed point (multiples of 2^-4, <= 2^20 units) and indexes are mathematical integers with int32 range: exactness/no-wrap is enforced by bound tracking (|m| < 2^53). Trusted: the invariants are inductive only as far as the step obligations show; go/ssa; this engine; z3/cvc5. Bounds: quick: dense window arrays of 0/1/4 symbolic cells plus an enumerated 66-cell layout, new index within 12 of the window; sparse M<=3 with all iteration orders; paginated layouts as listed in the evidence; 3-operation histories. Thorough: dense 8 cells, all 66x80 layouts of the realistic array, sparse M=4, 4-operation histories. Encode/Decode and protobuf steps are covered under C06/C09.",
              ref="§6 C04"),
  "C05": dict(text="Collapsing stores with bin limit N in {1,2,3,4}: from an arbitrary invariant state (whole array symbolic, collapsed or not, empty or cleared with stale cells) one AddWithCount and one same-kind MergeWith (every pair of limits in {1,2,3}, receiver/argument empty or not) are proven to keep len<=N and span<=N, conserve total weight, leave the argument unchanged and yield exactly the content folded at the collapsing edge; no operation can panic. A matrix of cross-kind merges (each store built by the real code) and every 3-operation history from a new N=3 store are compared with the folded ghost content; receiver and argument share no memory after a merge.",
-             note="Same trusted base and weight/index abstractions as C04. Bounds: N<=4 (add), N<=3 (merge), new index within 24 of the window, merged windows within 12 of each other. N=2048 is outside. The empty-receiver merge panic found by this check was repaired (known_findings.json: fixed).",
+             note="Same trusted base and weight/index abstractions as C04. Bounds: quick N<=4 (add), N<=3 (merge); thorough N in {8,16} (add), pairs (4,4),(6,3),(2,6) (merge), 4-operation histories; new index within 24 of the window, merged windows within 12 of each other. N=2048 is outside. The empty-receiver merge panic found by this check was repaired (known_findings.json: fixed).",
              ref="§6 C05"),
  "C18": dict(text="Every codec obligation (round trip, framing with arbitrary prefix/trailing bytes, size functions, strict-prefix EOF, 32-bit overflow, varfloat (v+1)-1, flags, no panic / <=9 bytes read on arbitrary input) is proven by the solver for all 2^64 values of the encoded quantity on the SSA of the real functions; bounded only in the number of surrounding symbolic bytes.",
-             note="Trusted: go/ssa construction, this engine's SSA semantics (validated by native replay of every counterexample), the SMT solvers; stubs: math.Float64bits/frombits (bit casts), bits.Leading/TrailingZeros64 (ite chains). Bounds: prefix <=2, trailing <=3 (quick) bytes, arbitrary input strings <=12 bytes.",
+             note="Trusted: go/ssa construction, this engine's SSA semantics (validated by native replay of every counterexample), the SMT solvers; stubs: math.Float64bits/frombits (bit casts), bits.Leading/TrailingZeros64 (ite chains). Bounds: prefix <=2 and trailing <=3 symbolic bytes (quick), prefix <=3 and trailing <=8 (thorough); arbitrary input strings <=12 bytes.",
              ref="§6 C18"),
 }
 NOT_YET = "no check registered yet in this revision (see DESIGN.md §6 for the planned harness)"
